@@ -12,12 +12,19 @@ OUTS = tuple(VALS) + ("exc", "cancelled", "never", "running")
 SMALL = ("1", "0", "None", "exc", "cancelled", "never", "running")
 
 
+class FalsyX(E2):
+    """a failure whose exception object is falsy"""
+
+    def __len__(self):
+        return 0
+
+
 def truthy(o):
     return o in VALS and bool(VALS[o])
 
 
 def falsy(o):
-    return o in ("exc", "cancelled") or (o in VALS and not VALS[o])
+    return o in ("exc", "fexc", "cancelled") or (o in VALS and not VALS[o])
 
 
 def ref_bool(op, outs, order):
@@ -38,6 +45,8 @@ def ref_bool(op, outs, order):
                 return ("cancelled", None), k
             if o == "exc":
                 return ("err", "E2(x%d)" % i), k
+            if o == "fexc":
+                return ("err", "FalsyX(x%d)" % i), k
             return ("ok", brief(VALS[o])), k
     return ("pending", None), None
 
@@ -50,6 +59,8 @@ def finish_input(mc, f, i, o):
     elif f.set_running_or_notify_cancel():
         if o == "exc":
             f.set_exception(E2("x%d" % i))
+        elif o == "fexc":
+            f.set_exception(FalsyX("x%d" % i))
         else:
             f.set_result(VALS[o])
     mc.emit("in.ret", i=i)
@@ -163,6 +174,10 @@ harness("c14.hist3full", prop="C14", traced=(), horizon=20, params=_hparams(3, O
 oracle("c14.hist3full")(hcheck)
 harness("c14.hist4", prop="C14", traced=(), horizon=20, params=_hparams(4, ("1", "0", "exc", "cancelled", "never")))(hbody)
 oracle("c14.hist4")(hcheck)
+_falsy = [q for q in _hparams(2, ("1", "0", "fexc", "cancelled", "never")) + _hparams(3, ("1", "0", "fexc"))
+          if "fexc" in q["outs"]]
+harness("c14.falsy", prop="C14", traced=(), horizon=20, params=_falsy)(hbody)
+oracle("c14.falsy")(hcheck)
 _special = []
 for _op in ("or", "and"):
     for _outs in itertools.product(SMALL, repeat=2):
@@ -261,8 +276,8 @@ harness("c14.conc", prop="C14", traced=("futures.bool", "futures.base"), horizon
 oracle("c14.conc")(ccheck)
 
 PLAN = {
-    "quick": [dict(harness="c14.hist2", bound=0), dict(harness="c14.hist3", bound=0), dict(harness="c14.special", bound=0),
+    "quick": [dict(harness="c14.hist2", bound=0), dict(harness="c14.falsy", bound=0), dict(harness="c14.hist3", bound=0), dict(harness="c14.special", bound=0),
               dict(harness="c14.conc", bound=2)],
-    "thorough": [dict(harness="c14.hist2", bound=0), dict(harness="c14.hist3full", bound=0), dict(harness="c14.hist4", bound=0),
+    "thorough": [dict(harness="c14.hist2", bound=0), dict(harness="c14.falsy", bound=0), dict(harness="c14.hist3full", bound=0), dict(harness="c14.hist4", bound=0),
                  dict(harness="c14.special", bound=0), dict(harness="c14.conc", bound=3)],
 }
